@@ -58,6 +58,7 @@ Inductive prog : Type :=
 | Push (f : fam) (l : lbl)                       (* f[n++] = l; l = NULL   (no-op when l is NULL) *)
 | Pop (f : fam) (l : lbl)                        (* l = f[--n]  (NULL when the family is empty) *)
 | IfEmpty (f : fam) (p q : prog)
+| PopElse (f : fam) (l : lbl) (p q : prog)       (* if (n == 0) p else { l = f[--n]; q } *)
 | FreeAll (f : fam) (cm : option flag)           (* for every entry e of f: ZSTD_customFree(e); entries stay (dangling) *)
 | ClearFam (f : fam)                             (* the array is gone / zeroed *)
 | Drain (src dst : fam)                          (* every entry of src is moved on top of dst (ownership transfer) *)
@@ -190,6 +191,11 @@ Fixpoint run (o : oracle) (p : prog) (s : state) : state * bool :=
       | i :: rest => (upd_slots (upd_fams s (set f rest (fams s))) (set l (Some i) (slots s)), false)
       end
   | IfEmpty f p q => match fget s f with [] => run o p s | _ :: _ => run o q s end
+  | PopElse f l p q =>
+      match fget s f with
+      | [] => run o p s
+      | i :: rest => run o q (upd_slots (upd_fams s (set f rest (fams s))) (set l (Some i) (slots s)))
+      end
   | FreeAll f cm =>
       let ids := fget s f in
       (add_ev (fold_left (fun st i => free_id f cm i st) ids s) (EvFreeFam f ids), false)
@@ -374,6 +380,18 @@ Fixpoint aexec (fuel : nat) (canfail : bool) (p : prog) (a : astate) : option le
                 | _, _ => None
                 end
       | FDang => None
+      end
+  | PopElse f l p q =>
+      match aget a l with
+      | AOwn => None
+      | _ => match afget a f with
+             | FEmpty => aexec fuel canfail p a
+             | FOwn => match aexec fuel canfail p (afset a f FEmpty), aexec fuel canfail q (aset a l AOwn) with
+                       | Some x, Some y => Some (x ++ y)
+                       | _, _ => None
+                       end
+             | FDang => None
+             end
       end
   | FreeAll f cm =>
       match afget a f with
